@@ -49,6 +49,25 @@ def build(spec, pool):
         return pool[spec[1]]
     if k == 'regex':
         return re.compile('a')
+    if k == 'hostfn':
+        kind = spec[1]
+        if kind == 'raise_zero':
+            return lambda args, options: 1 // 0
+        if kind == 'raise_key':
+            return lambda args, options: {}['missing']
+        if kind == 'raise_type':
+            return lambda args, options: len(5)
+        if kind == 'raise_value':
+            return lambda args, options: int('x')
+        if kind == 'raise_runtime':
+            def _rt(args, options):
+                raise BareScriptRuntimeError('host says no')
+            return _rt
+        if kind == 'first':
+            return lambda args, options: args[0] if args else None
+        if kind == 'count':
+            return lambda args, options: len(args)
+        raise ValueError(kind)
     raise ValueError(k)
 
 
@@ -186,7 +205,10 @@ def run_case(case):
             expr = uncanon_expr(case['expr']) if 'expr' in case else parse_expression(case['expr_text'])
             locals_ = None if case.get('locals') is None else {k: build(v, pool) for k, v in case['locals'].items()}
             before = copy.deepcopy(expr)
-            val = evaluate_expression(expr, options, locals_, case.get('builtins', True))
+            if case.get('no_options'):
+                val = evaluate_expression(expr)
+            else:
+                val = evaluate_expression(expr, options, locals_, case.get('builtins', True))
             res['res'] = tree(val)
             res['model_mutated'] = before != expr
         else:
